@@ -56,7 +56,9 @@ class Reservoir(object):
 
     def add(self, val):
         self._total_count += 1
-        if self._total_count <= self._cap:
+        if len(self._data) < self._cap:
+            # also after resize() shrank the data and a later resize()
+            # raised the cap again: fill up before sampling
             self._data.append(val)
             return
 
